@@ -93,4 +93,8 @@ stream of `corpus/C06/ts-demux-first-pes.ops` in small (finding F30) -/
 def tsThree : Bytes :=
   tsOf 256 0 (linePacket 3 7 0x55) ++ tsOf 256 1 (linePacket 4 7 0x66) ++ tsOf 256 2 (linePacket 5 7 0x77)
 
+/-- `tsThree` with the continuity_counter of the first packet chosen freely (the following ones count on) -/
+def tsThreeFrom (cc : Nat) : Bytes :=
+  tsOf 256 cc (linePacket 3 7 0x55) ++ tsOf 256 (cc + 1) (linePacket 4 7 0x66) ++ tsOf 256 (cc + 2) (linePacket 5 7 0x77)
+
 end Zvbi.Demux
